@@ -64,5 +64,5 @@ MCSpec == MCInit /\ [][MCNext]_vars
 
 (* the rotation is never so late that an acceptable timeslot falls off the  *)
 (* end of the window: with the thread running, now - offset stays small     *)
-MCView == <<now, up, offset, live, archive, bans, equip>>
+MCView == <<now, up, offset, live, archive, bans, equip, DiskView>>
 =============================================================================
